@@ -81,6 +81,9 @@ def pow2_instances(exprs, down=2, up=1, max_terms=60):
             facts.append(z3.Implies(t == cst, pow2(t) == 2 ** cst))
             facts.append(z3.Implies(z3.And(t >= 0, t <= cst), pow2(t) <= 2 ** cst))
             facts.append(z3.Implies(t >= cst, pow2(t) >= 2 ** cst))
+    for t in terms:
+        facts.append(z3.Implies(z3.And(t >= 0, t % 2 == 0), pow2(t) % 3 == 1))
+        facts.append(z3.Implies(z3.And(t >= 0, t % 2 == 1), pow2(t) % 3 == 2))
     for t, lvl in list(args.values()):
         if lvl != 0:
             continue
@@ -110,7 +113,58 @@ def pow2_instances(exprs, down=2, up=1, max_terms=60):
     return facts
 
 
-def to_smt2(hyps, goal, want_axioms=None, extra=()):
+def _term_facts(t):
+    from .ops import pow2, ilog2
+    f = [z3.Implies(t >= 0, pow2(t) >= 1),
+         z3.Implies(t >= 1, pow2(t) == 2 * pow2(t - 1)),
+         z3.Implies(t >= 0, pow2(t + 1) == 2 * pow2(t)),
+         z3.Implies(t >= 2, pow2(t) == 4 * pow2(t - 2)),
+         z3.Implies(t == 0, pow2(t) == 1)]
+    return f
+
+
+def quantified_pow2_facts(hyps):
+    """For every universally quantified hypothesis whose body mentions pow2(t[k]) with the bound
+    variables k, add the (universally valid) pow2 facts about t[k] under the same binder and
+    the same patterns, so that they are instantiated together with the hypothesis."""
+    out = []
+    for h in hyps:
+        if not (z3.is_quantifier(h) and h.is_forall()):
+            continue
+        n = h.num_vars()
+        consts = [z3.Const("qv!%d!%s" % (i, h.var_name(i)), h.var_sort(i)) for i in range(n)]
+        rev = list(reversed(consts))
+        body = z3.substitute_vars(h.body(), *rev)
+        apps, seen = [], set()
+        _collect_apps(body, "pow2", apps, seen)
+        if not apps:
+            continue
+        facts, done = [], set()
+        for a in apps:
+            t = z3.simplify(a.arg(0))
+            if str(t) in done:
+                continue
+            done.add(str(t))
+            facts.extend(_term_facts(t))
+        pats = []
+        for i in range(h.num_patterns()):
+            pt = z3.substitute_vars(h.pattern(i), *rev)
+            pats.append(pt)
+        try:
+            if pats:
+                mp = []
+                for pt in pats:
+                    ch = pt.children() if z3.is_app(pt) and pt.decl().kind() == z3.Z3_OP_PATTERN else [pt]
+                    mp.append(z3.MultiPattern(*ch) if len(ch) > 1 else ch[0])
+                out.append(z3.ForAll(consts, z3.And(*facts), patterns=mp))
+            else:
+                out.append(z3.ForAll(consts, z3.And(*facts)))
+        except z3.Z3Exception:
+            out.append(z3.ForAll(consts, z3.And(*facts)))
+    return out
+
+
+def to_smt2(hyps, goal, want_axioms=None, extra=(), use_theories=True):
     s = z3.Solver()
     exprs = list(hyps) + [goal]
     if want_axioms is None:
@@ -118,12 +172,24 @@ def to_smt2(hyps, goal, want_axioms=None, extra=()):
     if want_axioms:
         for f in pow2_instances(exprs):
             s.add(f)
+        for f in quantified_pow2_facts(hyps):
+            s.add(f)
     for h in hyps:
         s.add(h)
     for h in extra:
         s.add(h)
     s.add(z3.Not(goal))
-    return s.to_smt2()
+    txt = s.to_smt2()
+    if use_theories:
+        from .theories import axioms_for
+        ax, used = axioms_for(txt)
+        if ax:
+            for a in ax:
+                s.add(a)
+            for f in pow2_instances(ax):
+                pass
+            txt = s.to_smt2()
+    return txt
 
 
 def _model_dict(m):
